@@ -6,6 +6,7 @@ from hypothesis import strategies as st
 import pyModeS as pms
 from ref import cpr, frames
 from vlib import gen
+from vlib import variants
 from vlib.core import Leg, call
 from checks import cprcommon as cg
 
@@ -77,6 +78,8 @@ def chk_surface(case, note):
     me1 = cpr.me_surface(case["tc1"], 1, e1["yz"], e1["xz"], b1 & 127, (b1 >> 7) & 1, (b1 >> 8) & 127, 0)
     m0 = frames.tohex(frames.df17(case["ctx_icao"], me0, ca=b0 & 7, df=case["df"]), 112, case.get("hc", "U"))
     m1 = frames.tohex(frames.df17(case["ctx_icao"], me1, ca=b0 & 7, df=case["df"]), 112, case.get("hc", "U"))
+    if b0 & 8:
+        variants.prelude(pms, m0)   # helpers on the same string, and other message types of the same aircraft, decoded first
     dtm = case.get("as_datetime", 0)
     T0, T1 = cg.as_time(case["t0"], dtm), cg.as_time(case["t1"], dtm)
     t0, t1 = cg.time_key(case["t0"], dtm), cg.time_key(case["t1"], dtm)
